@@ -107,6 +107,9 @@ def run(spec, setup=None, readonly=False, label=None, built=None,
                 rec.exc = exc
     rec.wall = time.perf_counter() - t0
     rec.warnings = [(w.category.__name__, str(w.message)) for w in wlist]
+    if r.hook_errors:
+        # a bug in a monitor: never a verdict on the code under test
+        raise RuntimeError("monitor hook failed:\n" + r.hook_errors[0])
     return rec
 
 
